@@ -10,6 +10,16 @@ BASELINE = ("cd /repo && /venv/bin/python -m pytest -ra -q -p no:cacheprovider -
 
 # id -> (category, technique, level text, level note, design ref)
 CHECKS = {
+    "C08": ("exploration",
+            "Hypothesis-generated documents with invalidating edits; differential against an independent "
+            "re-implementation of each documented validation rule (iff per object, kind and rank)",
+            "Documents are made invalid on purpose along every route the property lists and validated as "
+            "Document, stand-alone Section and stand-alone Property; the reported issues must equal what an "
+            "independent model of the documented rules (doc/advanced_features.rst) prescribes, in both "
+            "directions, with the documented rank, and validation must never raise. Sampling only.",
+            "vf/model/rules.py is the reading of the documentation; deliberate slack for the dependency rule "
+            "and for kinds 403/400/600 (see evidence assumptions).",
+            "DESIGN.md section 5, C08"),
     "C01": ("exploration",
             "Hypothesis-generated documents x writer options x reader modes x entry points; round-trip oracle "
             "on a typed snapshot, independent vocabulary check (xml.etree) and an independent foreign emitter",
